@@ -2,10 +2,12 @@ import Enc.Model.Json.CodecChoiceDec
 import Enc.Lemmas.JsonCodecChoiceSeen
 /-!
 # Facts about the `seen` map of a codec construction, decode side (`DSeen`): the lemmas of JsonCodecChoiceSeen.lean again
+(`Evo`: a call never changes or removes a finished struct type and leaves exactly the entries under construction, roots
+included, it found; the potential `absentD` / `foreignD`)
 -/
 namespace Enc.Lemmas.JsonCodecChoiceDecSeen
 open Enc.Model.Json.CodecChoice
-open Enc.Lemmas.JsonCodecChoiceSeen (filter_length_le filter_length_lt mem_allKeys size_pos lookup_size_le)
+open Enc.Lemmas.JsonCodecChoiceSeen (filter_length_le filter_length_lt size_pos)
 
 theorem find_set (s : DSeen) (k k' : Key) (e : DEntry) :
     (s.set k e).find k' = if k' = k then some e else s.find k' := by
@@ -70,21 +72,89 @@ theorem mono_erase_of_absent (s s' : DSeen) (k : Key) (e : DEntry) (habs : s.fin
     rw [find_set_ne _ _ _ _ hk]
     exact hk'
 
-theorem unseen_mono (env : Env) (s s' : DSeen) (h : Mono s s') : unseenD env s' ≤ unseenD env s := by
-  unfold unseenD
+/-! ## How `seen` evolves: a call never changes or removes a finished struct type, and leaves exactly the entries
+"under construction" (with their roots) it found -/
+
+def Evo (s s' : DSeen) : Prop :=
+  (∀ k fs, s.find k = some (.done fs) → s'.find k = some (.done fs)) ∧
+  (∀ k r, s'.find k = some (.building r) ↔ s.find k = some (.building r))
+
+theorem Evo.refl (s : DSeen) : Evo s s := ⟨fun _ _ h => h, fun _ _ => Iff.rfl⟩
+
+theorem Evo.trans {a b c : DSeen} (h1 : Evo a b) (h2 : Evo b c) : Evo a c :=
+  ⟨fun k fs h => h2.1 k fs (h1.1 k fs h), fun k r => (h2.2 k r).trans (h1.2 k r)⟩
+
+theorem Evo.mono {s s' : DSeen} (h : Evo s s') : Mono s s' := by
+  intro k hk
+  cases hf : s.find k with
+  | none => simp [hf] at hk
+  | some e =>
+    cases e with
+    | building r => rw [(h.2 k r).mpr hf]; rfl
+    | done fs => rw [h.1 k fs hf]; rfl
+
+/-- a named composite type: registered on the way in, deleted on the way out -/
+theorem evo_named (s s1 : DSeen) (k r0 : Key) (habs : s.find k = none) (h : Evo (s.set k (.building r0)) s1) :
+    Evo s (s1.erase k) := by
+  constructor
+  · intro k' fs hk'
+    have hne : k' ≠ k := by intro e; subst e; rw [habs] at hk'; cases hk'
+    rw [find_erase]; simp only [hne, if_false]
+    apply h.1
+    rw [find_set_ne _ _ _ _ hne]; exact hk'
+  · intro k' r
+    rw [find_erase]
+    by_cases hk : k' = k
+    · subst hk; simp [habs]
+    · simp only [hk, if_false]
+      rw [h.2 k' r, find_set_ne _ _ _ _ hk]
+
+/-- a struct type: registered, then finished -/
+theorem evo_struct (s s2 : DSeen) (k r0 : Key) (fs : DL) (habs : s.find k = none) (h : Evo (s.set k (.building r0)) s2) :
+    Evo s (s2.set k (.done fs)) := by
+  constructor
+  · intro k' fs' hk'
+    have hne : k' ≠ k := by intro e; subst e; rw [habs] at hk'; cases hk'
+    rw [find_set_ne _ _ _ _ hne]
+    apply h.1
+    rw [find_set_ne _ _ _ _ hne]; exact hk'
+  · intro k' r
+    by_cases hk : k' = k
+    · subst hk; simp [find_set_self, habs]
+    · rw [find_set_ne _ _ _ _ hk, h.2 k' r, find_set_ne _ _ _ _ hk]
+
+/-- the second listing: the marker is set to the root and restored -/
+theorem evo_relist (s s2 : DSeen) (k r R : Key) (hk : s.find k = some (.building r))
+    (h : Evo (s.set k (.building R)) s2) : Evo s (s2.set k (.building r)) := by
+  constructor
+  · intro k' fs hk'
+    have hne : k' ≠ k := by intro e; subst e; rw [hk] at hk'; cases hk'
+    rw [find_set_ne _ _ _ _ hne]
+    apply h.1
+    rw [find_set_ne _ _ _ _ hne]; exact hk'
+  · intro k' r'
+    by_cases hke : k' = k
+    · subst hke
+      rw [find_set_self, hk]
+    · rw [find_set_ne _ _ _ _ hke, h.2 k' r', find_set_ne _ _ _ _ hke]
+
+/-! ## The potential -/
+
+theorem absent_evo (U : List Key) (s s' : DSeen) (h : Evo s s') : absentD U s' ≤ absentD U s := by
+  unfold absentD
   apply filter_length_le
   intro k _ hk
   cases hs : s.find k with
   | none => rfl
   | some e =>
-    have := h k (by simp [hs])
+    have := h.mono k (by simp [hs])
     cases hs' : s'.find k with
     | none => simp [hs'] at this
     | some e' => simp [hs'] at hk
 
-theorem unseen_set_lt (env : Env) (s : DSeen) (k : Key) (e : DEntry) (hk : k ∈ allKeys env) (habs : s.find k = none) :
-    unseenD env (s.set k e) < unseenD env s := by
-  unfold unseenD
+theorem absent_set_lt (U : List Key) (s : DSeen) (k : Key) (e : DEntry) (hk : k ∈ U) (habs : s.find k = none) :
+    absentD U (s.set k e) < absentD U s := by
+  unfold absentD
   apply filter_length_lt _ _ _ _ k hk
   · simp [habs]
   · simp [find_set_self]
@@ -97,5 +167,55 @@ theorem unseen_set_lt (env : Env) (s : DSeen) (k : Key) (e : DEntry) (hk : k ∈
       cases hs' : (s.set k e).find x with
       | none => simp [hs'] at h2
       | some _ => simp [hs'] at hx
+
+theorem absent_set_le (U : List Key) (s : DSeen) (k : Key) (e : DEntry) : absentD U (s.set k e) ≤ absentD U s := by
+  unfold absentD
+  apply filter_length_le
+  intro x _ hx
+  have := mono_set s k e x
+  cases hs : s.find x with
+  | none => rfl
+  | some e' =>
+    have h2 := this (by simp [hs])
+    cases hs' : (s.set k e).find x with
+    | none => simp [hs'] at h2
+    | some _ => simp [hs'] at hx
+
+theorem absent_le (U : List Key) (s : DSeen) : absentD U s ≤ U.length := List.length_filter_le _ _
+
+theorem foreign_le (U : List Key) (s : DSeen) (R : Key) : foreignD U s R ≤ U.length := List.length_filter_le _ _
+
+theorem isForeign_evo (s s' : DSeen) (R k : Key) (h : Evo s s') : isForeignD s' R k = isForeignD s R k := by
+  unfold isForeignD
+  cases hs : s.find k with
+  | none =>
+    cases hs' : s'.find k with
+    | none => rfl
+    | some e =>
+      cases e with
+      | building r => have := (h.2 k r).mp hs'; rw [hs] at this; cases this
+      | done fs => rfl
+  | some e =>
+    cases e with
+    | building r => rw [(h.2 k r).mpr hs]
+    | done fs => rw [h.1 k fs hs]
+
+theorem foreign_evo (U : List Key) (s s' : DSeen) (R : Key) (h : Evo s s') : foreignD U s' R = foreignD U s R := by
+  unfold foreignD
+  have : isForeignD s' R = isForeignD s R := funext fun k => isForeign_evo s s' R k h
+  rw [this]
+
+/-- the second listing marks one more struct type under construction with the current root -/
+theorem foreign_mark_lt (U : List Key) (s : DSeen) (k r R : Key) (hk : k ∈ U) (hf : s.find k = some (.building r))
+    (hne : (r == R) = false) : foreignD U (s.set k (.building R)) R < foreignD U s R := by
+  unfold foreignD
+  apply filter_length_lt _ _ _ _ k hk
+  · have : r ≠ R := by simpa using hne
+    simp [isForeignD, hf, this]
+  · simp [isForeignD, find_set_self]
+  · intro x _ hx
+    by_cases hxk : x = k
+    · subst hxk; simp [isForeignD, find_set_self] at hx
+    · simpa [isForeignD, find_set_ne _ _ _ _ hxk] using hx
 
 end Enc.Lemmas.JsonCodecChoiceDecSeen
